@@ -117,6 +117,16 @@ VARIANTS = [
      "new": "        def _forget(done_fut):\n            local_futs.remove(done_fut)\n"
             "            if not local_futs and self._object_futures.get(fut_key) is local_futs:\n"
             "                del self._object_futures[fut_key]\n        fut.add_done_callback(_forget)\n"},
+    {"name": "R4 cancel_futures looks up one update type only", "file": OM, "expect": "C14.R4",
+     "old": _CANCEL_LOOP,
+     "new": "        waiting = self._object_futures.get((local_id, ObjectUpdateType.PROPERTIES), [])\n"
+            "        for fut in waiting:\n"
+            "            fut.cancel()\n"},
+    {"name": "P R4 cancel_futures by direct lookup over the whole update-type space", "file": OM, "expect": "silent",
+     "old": _CANCEL_LOOP,
+     "new": "        for kind in ObjectUpdateType:\n"
+            "            for fut in self._object_futures.get((local_id, kind), ()):\n"
+            "                fut.cancel()\n"},
     {"name": "P R4 rename locals in cancel_futures", "file": OM, "expect": "silent",
      "old": _CANCEL_LOOP,
      "new": "        for key, waiting in self._object_futures.items():\n"
